@@ -6,7 +6,8 @@
    the abstract cards and the periodic table. *)
 From Coq Require Import List NArith ZArith Bool String Ascii Reals PrimFloat.
 From T4V Require Import Base.Str Base.Scalar C10.Model C10.ProofsStr C10.Spec C10.ProofsHead
-  C10.ProofsCard C10.ProofsNum C10.ProofsDeck C10.ProofsPipe.
+  C10.ProofsCard C10.ProofsNum C10.ProofsDeck C10.ProofsPipe C10.LinkC09 C10.LinkC14.
+From T4V Require C09.Model C09.Spec C09.ProofsNorm C14.Model C14.ProofsContent C14.ProofsCards.
 Import ListNotations.
 Open Scope string_scope.
 
@@ -64,6 +65,50 @@ Theorem C10_material_cards_recognised : forall cards : list dcard,
   Ok (map (fun m => (m_num m, render (m_items m))) (mcards cards)).
 Proof. exact material_cards_recognised. Qed.
 Print Assumptions C10_material_cards_recognised.
+
+(* repeated material numbers (MCNP refuses them, the code does not): every
+   number once, at the place of its FIRST card, with the entries of its LAST
+   card; the number of a material card is read from ASCII digits only (group 2
+   of re_data), for which the model's int is exactly Python's *)
+Theorem C10_material_cards_duplicates : forall cards : list dcard,
+  Forall wf_dcard cards ->
+  exists d, get_materials (map render_dcard cards) = Ok d /\
+    map fst d = dedupN [] (map m_num (mcards cards)) /\
+    (forall k, lookupN k d = last_card k (mcards cards)).
+Proof. exact material_cards_duplicates. Qed.
+Print Assumptions C10_material_cards_duplicates.
+
+Example C10_duplicates_example :
+  get_materials ["m5 1001 1"; "m7 8016 1"; "mt5 lwtr"; "M05 26000 2"] =
+  Ok [(5%N, ["26000"; "2"]); (7%N, ["8016"; "1"])].
+Proof. reflexivity. Qed.
+
+(* linked with C14 (get_cards + Card.content): the data block as PHYSICAL
+   lines — any blanks and tabs between the tokens, any breaking into
+   continuation lines (5 blanks or &), c comment lines between the lines,
+   $ trailers — gives exactly the material cards its laid-out cards carry *)
+Theorem C10_material_cards_recognised_linked :
+  forall (cs : list T4V.C14.ProofsCards.lcard) (tailc : list string) (cards : list dcard),
+  T4V.C14.ProofsCards.lblock_ok T4V.C14.ProofsCards.noline cs ->
+  T4V.C14.ProofsCards.comment_lines tailc ->
+  Forall2 carries cs cards -> Forall wf_dcard cards -> NoDup (map m_num (mcards cards)) ->
+  get_materials
+    (map T4V.C14.Model.content
+       (T4V.C14.Model.get_cards_lines
+          (flat_map T4V.C14.ProofsCards.pc_phys (map T4V.C14.ProofsCards.lc_pcard cs) ++ tailc)%list)) =
+  Ok (map (fun m => (m_num m, render (m_items m))) (mcards cards)).
+Proof. exact material_cards_recognised_linked. Qed.
+Print Assumptions C10_material_cards_recognised_linked.
+
+Example C10_carries_unfold : forall c d,
+  carries c d =
+  match d with
+  | DMat m => T4V.C14.ProofsCards.lc_toks c = card_name m :: render (m_items m) /\
+              m_lead m = T4V.C14.ProofsContent.starts_ws (T4V.C14.ProofsContent.joined (T4V.C14.ProofsCards.lc_lines c)) /\
+              m_trail m = T4V.C14.ProofsContent.ends_ws (T4V.C14.ProofsContent.joined (T4V.C14.ProofsCards.lc_lines c))
+  | DOther t => T4V.C14.ProofsCards.card_content_form c = t
+  end.
+Proof. intros c d. destruct d; reflexivity. Qed.
 
 (* ------------------------------------------------------------------------ *)
 (* elements and ZAIDs                                                        *)
@@ -158,6 +203,19 @@ Example C10_example :
   convert_card ["1001"; "1"; "8016"; "-2"] = Err EMixedSigns /\
   convert_card ["119001"; "1"] = Err EAttribute /\ convert_card ["92"; "1"] = Err EValue.
 Proof. split; [exact ex_items_wf|]. vm_compute. repeat split. Qed.
+
+(* outside the guard of the theorems (ZAIDs made of digits): the model follows
+   Python's int() — a sign and single underscores between digits are read *)
+Example C10_python_int :
+  convert_card ["+92235"; "1"] = Ok ([("U235", "1")], Some true) /\
+  convert_card ["9_2235"; "1"] = Ok ([("U235", "1")], Some true) /\
+  convert_card ["92_235"; "1"] = Err EValue /\ convert_card ["9__2235"; "1"] = Err EValue /\
+  convert_card ["-92235"; "1"] = Err EAttribute /\
+  convert_card ["1-35"; "1"] = Ok ([("H-35", "1")], Some true) /\
+  convert_card ["1+00"; "1"] = Ok ([("H-NAT", "1")], Some true) /\
+  py_int "0_0" = Some 0%Z /\ py_int "-0" = Some 0%Z /\ py_int "_1" = None /\ py_int "1_" = None /\
+  py_int "+" = None /\ py_int "" = None /\ py_int "+-1" = None.
+Proof. vm_compute. repeat split. Qed.
 
 (* ------------------------------------------------------------------------ *)
 (* amounts: rescale_fractions over the reals                                 *)
@@ -424,3 +482,115 @@ Example C10_deck_example :
       "POINT_WISE 300 m6_2.0 4"; "  U235 <0>"; "  O-NAT <1>"; "  U235 <2>"; "  H1 <3>";
       "POINT_WISE 300 m0 1"; "  HE4 1E-30"; ""; "END_COMPOSITION"].
 Proof. split; [exact ex_cards_wf|]. vm_compute. split; reflexivity. Qed.
+
+(* ------------------------------------------------------------------------ *)
+(* linked with C09 (normalize_float) and C14 (physical lines)                *)
+(* ------------------------------------------------------------------------ *)
+
+(* the data block as physical lines (C14's get_cards + content), the cells as
+   written on their cards — density = any spelling (zero padding, marker
+   E e D d or none) of a number —, norm = C09's normalize_float: one block per
+   material and NORMAL FORM of the density among the cells that use the
+   material, named m<number>_<normal form>; the spelling does not matter *)
+Theorem C10_one_block_per_material_density_linked :
+  forall (T : Type) (S : Scalar T) fval rend
+         (cs : list T4V.C14.ProofsCards.lcard) (tailc : list string) (cards : list dcard)
+         (cells : list (acell T)) lines,
+  T4V.C14.ProofsCards.lblock_ok T4V.C14.ProofsCards.noline cs ->
+  T4V.C14.ProofsCards.comment_lines tailc -> Forall2 carries cs cards ->
+  wf_deck cards -> Forall acell_ok cells ->
+  composition_lines S c09_norm fval rend (deck_contents cs tailc) (map cell_of cells) = Ok lines ->
+  exists d, lines = composition_lines_of rend d /\
+    map (block_name (T:=T)) (all_blocks d) =
+    flat_map (fun m => map (fun nf => "m" ++ dec (m_num m) ++ "_" ++ nf)
+                           (dedup [] (used_normal S (m_num m) cells))) (mcards cards).
+Proof.
+  intros T S fval rend cs tailc cards cells lines Hb Ht Hc Hwf Hcells H.
+  rewrite (contents_linked cs tailc cards Hb Ht Hc) in H.
+  exact (one_block_per_material_density_linked S fval rend cards cells lines Hwf Hcells H).
+Qed.
+Print Assumptions C10_one_block_per_material_density_linked.
+
+Example C10_linked_unfold : forall (T : Type) (S : Scalar T) key (cells : list (acell T)) (a : acell T) s,
+  used_normal S key cells =
+    map (fun a => T4V.C09.ProofsNorm.normal_form (a_num a))
+        (filter (fun a => negb (sleb S (a_imp a) (s0 S)) && (a_univ a =? 0)%Z && negb (a_filled a)
+                          && (a_mat a =? Z.of_N key)%Z) cells) /\
+  c_dens (cell_of a) =
+    match T4V.C09.Model.normalize_float (T4V.C09.Spec.spell (a_num a) (a_pad a) (a_marker a)) with
+    | T4V.C09.Model.Ok n => Some n | T4V.C09.Model.Err _ => None end /\
+  c09_norm s = match T4V.C09.Model.normalize_float s with
+               | T4V.C09.Model.Ok n => n | T4V.C09.Model.Err _ => s end /\
+  deck_contents = fun cs tailc =>
+    map T4V.C14.Model.content
+      (T4V.C14.Model.get_cards_lines
+         (flat_map T4V.C14.ProofsCards.pc_phys (map T4V.C14.ProofsCards.lc_pcard cs) ++ tailc)%list).
+Proof. intros. repeat split; reflexivity. Qed.
+
+(* finding fortran_spelled_fraction_copied, exactly: at a mass density the
+   amount of a nuclide is the card's spelling character for character, for
+   EVERY spelling of every number — D and d markers, a bare signed exponent,
+   padded zeros — whereas normalize_float (applied to the density of the same
+   header line, and to the fractions on the atom-density path) would give the
+   normal form with marker e *)
+Theorem C10_fraction_spelling_copied_linked :
+  forall norm fval rend (m : mcard) (d : string) (fd : R) (k : nat) (nuc : nuclide)
+         (num : T4V.C09.Spec.number) (pad : nat) (mk : T4V.C09.Spec.marker),
+  (fd < 0)%R -> nth_error (nuclides (m_items m)) k = Some nuc ->
+  nfrac nuc = T4V.C09.Spec.spell num pad mk ->
+  T4V.C09.Spec.wf_number num = true -> T4V.C09.Spec.marker_ok num mk = true ->
+  exists b, block_for RS norm fval (m_num m) (card_entries m) (card_flag m) d fd = Ok b /\
+    nth_error (block_lines rend b) (Datatypes.S k) =
+      Some ("  " ++ spec_name nuc ++ " " ++ T4V.C09.Spec.spell num pad mk) /\
+    T4V.C09.Model.normalize_float (T4V.C09.Spec.spell num pad mk)
+      = T4V.C09.Model.Ok (T4V.C09.ProofsNorm.normal_form num).
+Proof.
+  intros norm fval rend m d fd k nuc num pad mk H. apply fraction_spelling_copied.
+  cbn [sltb s0 RS]. now apply Rltb_true.
+Qed.
+Print Assumptions C10_fraction_spelling_copied_linked.
+
+(* non-vacuity of the links: a data block on five physical lines, two cells
+   spelling one density in two ways, a fraction spelled with a D marker *)
+Definition ex_l1 : T4V.C14.ProofsCards.lcard :=
+  [ ([], T4V.C14.ProofsContent.mk_pline [("", "m5"); (" ", "1001"); ("  ", "-0.11")] " " "$ hydrogen");
+    (["c oxygen"], T4V.C14.ProofsContent.mk_pline [("     ", "8016"); (" ", "-0.89")] "" "") ].
+Definition ex_l2 : T4V.C14.ProofsCards.lcard :=
+  [ ([], T4V.C14.ProofsContent.mk_pline [("", "mt5"); (" ", "lwtr.01t")] "" "") ].
+Definition ex_num : T4V.C09.Spec.number := T4V.C09.Spec.mkNumber "-" "1" (Some "5") (Some ("-", "3")).
+Definition ex_acells : list (acell float) :=
+  [ mkACell float 1%float 0 false 5 ex_num 0 T4V.C09.Spec.MD;
+    mkACell float 1%float 0 false 5 ex_num 2 T4V.C09.Spec.Mnone ].
+
+Example C10_linked_example :
+  T4V.C14.ProofsCards.lblock_ok T4V.C14.ProofsCards.noline [ex_l1; ex_l2] /\
+  Forall2 carries [ex_l1; ex_l2] [DMat ex_water; DOther "mt5 lwtr.01t"] /\
+  (flat_map T4V.C14.ProofsCards.pc_phys (map T4V.C14.ProofsCards.lc_pcard [ex_l1; ex_l2]))
+    = ["m5 1001  -0.11 $ hydrogen"; "c oxygen"; "     8016 -0.89"; "mt5 lwtr.01t"] /\
+  Forall acell_ok ex_acells /\
+  map spelling ex_acells = ["-1.5D-3"; "-1.500-3"] /\
+  map (fun a => c_dens (cell_of a)) ex_acells = [Some "-1.5e-3"; Some "-1.5e-3"] /\
+  composition_lines FS c09_norm (fun s => if String.eqb s "-1.5e-3" then Some (-0.0015)%float else None)
+    ex_rend (deck_contents [ex_l1; ex_l2] []) (map cell_of ex_acells) =
+  Ok [""; "COMPOSITION"; "2"; "DENSITY 300 m5_-1.5e-3 1.5e-3  2"; "  H1 0.11"; "  O16 0.89";
+      "POINT_WISE 300 m0 1"; "  HE4 1E-30"; ""; "END_COMPOSITION"].
+Proof.
+  split; [|split; [|split; [|split; [|split; [|split]]]]]; try (vm_compute; reflexivity).
+  - cbn. unfold T4V.C14.ProofsContent.line_ok, T4V.C14.ProofsCards.not_c, T4V.C14.ProofsCards.comment_lines,
+      T4V.C14.ProofsContent.item_ok, T4V.C14.ProofsContent.gap_nonempty, T4V.C14.ProofsContent.trailer_ok. cbn.
+    repeat match goal with
+           | |- _ /\ _ => split
+           | |- Forall _ [] => constructor
+           | |- Forall _ (_ :: _) => constructor
+           | |- True => exact I
+           | |- _ <> _ => discriminate
+           | |- _ = _ => reflexivity
+           | |- "" = "" \/ _ => left; reflexivity
+           | |- _ \/ (exists c r, String ?x ?y = String c r /\ _) => right; exists x, y; split; reflexivity
+           end.
+    all: try (left; reflexivity); try (right; reflexivity).
+  - constructor; [|constructor; [|constructor]].
+    + cbn. repeat split; vm_compute; reflexivity.
+    + vm_compute. reflexivity.
+  - repeat constructor.
+Qed.
